@@ -185,10 +185,8 @@ def audit(x):
             if not isinstance(sector, tuple) or len(sector) != nd:
                 probs.append(f"pending-sign key {sector!r} has wrong rank")
                 continue
-            if any(c not in ix.chargemap for c, ix in zip(sector, x.indices)):
-                # names a sector that cannot exist in this array
-                probs.append(f"pending-sign key {sector!r} uses a charge missing from its index table")
-                continue
+            # (an entry may be stale, i.e. name a sector whose block or charge was dropped: the statement
+            # only demands charge conservation and a value of +-1)
             if gs.sector_charge(sym, sector, duals) != x.charge:
                 probs.append(f"pending-sign key {sector!r} is not charge conserving")
         if len(x.oddpos) % 2 != gs.parity(sym, x.charge):
